@@ -95,14 +95,47 @@ def c11_worker(case):
                             continue
                         obs.append(realrun.call_parse(mod, fn, realrun.to_text(run[1], bm), run[2], True))
                     res[key] = {'build': ['ok'], 'obs': obs, 'has_source': hasattr(mod, '_source_code')}
+                    if inc and not hasattr(mod, '_source_code'):
+                        # reported by the parent ("include_source=True but the module has no _source_code")
+                        res['named=%s include_source=True exec_source=True compiles=%d' % (named, k)] = \
+                            {'import': ['exc', 'no _source_code', 'nothing to save']}
+                        continue
                     if inc:
                         modname = 'saved_%s_%d_%d' % ('n' if named else 'u', cid, k)
                         with open(os.path.join(d, modname + '.py'), 'w') as f:
                             f.write(mod._source_code)
                         jobs.append({'module': modname, 'runs': case['runs'], 'start': start, 'bytes': bm,
                                      'key': 'named=%s include_source=True exec_source=True compiles=%d' % (named, k)})
-                    if name:
-                        sys.modules.pop(name, None)
+            # (the module stays installed under its name while the other configurations of the same description are
+            # compiled - as in a process that simply calls Grammar() again - and is removed at the end)
+            if name:
+                sys.modules.pop(name, None)
+        # a header whose name is also the name of a rule of the grammar (the rule declared first; `start` moved last):
+        # the name of a grammar is a label, it selects nothing
+        others = [r for r in case['g']['rules'] if r != case['g'].get('start') and r.isidentifier()]
+        if others and case['g'].get('start') in case['g']['rules'] and cid % 3 == 0 and others[0] not in sys.modules:
+            c = dict(case)
+            order = others + [case['g']['start']]
+            c['cfg'] = dict(cfg0, name=others[0], order=order)
+            c['cfg'].pop('include_source', None)
+            try:
+                b = realrun.build(engine.describe(c))
+                key = 'named=like-a-rule'
+                if b[0] != 'ok':
+                    res[key] = {'build': list(b)}
+                else:
+                    mod = b[1]
+                    obs = []
+                    for run in case['runs']:
+                        try:
+                            fn = mod.parse if run[0] == case['g']['start'] else getattr(mod, run[0]).parse
+                        except Exception as e:  # noqa
+                            obs.append(['exc', type(e).__name__, 'no entry point'])
+                            continue
+                        obs.append(realrun.call_parse(mod, fn, realrun.to_text(run[1], bm), run[2], True))
+                    res[key] = {'build': ['ok'], 'obs': obs, 'has_source': False}
+            finally:
+                sys.modules.pop(others[0], None)
         with open(os.path.join(d, 'jobs.json'), 'w') as f:
             json.dump(jobs, f)
         with open(os.path.join(d, 'driver.py'), 'w') as f:
@@ -125,11 +158,80 @@ def c11_worker(case):
 
 engine.register('c11_worker', c11_worker)
 
+# ---- the emitted source of a grammar that extends another one (it needs the parent module, saved likewise) ----
+EXT_PARENT = {'anon': 'ignore / +/\n', 'named': 'ignore Blank = / +/\n'}
+EXT_CHILD = {'anon': 'ignore "-"\n', 'named': 'ignore Dash = "-"\n', 'none': ''}
+EXT_TEXTS = ['abc def', 'ab -cd', 'a , b', 'a,-b', ' ab', 'ab', 'a, b ,c', '-a', 'a - , - b']
 
-def sample(cases, n, rng, max_runs=24):
+
+def c11_extends_worker(case):
+    """Parent and child are compiled with include_source=True; the child's behaviour in memory must equal the behaviour
+    of its saved source imported in a separate interpreter (next to the saved source of the parent)."""
+    cid, pk, ck = case['id'], case['parent'], case['child']
+    par, chi = 'vg_c11x_par_%d' % cid, 'vg_c11x_chi_%d' % cid
+    pdesc = 'grammar %s\n%sstart = Word+\nWord = /[a-z]+/\n' % (par, EXT_PARENT[pk])
+    cdesc = 'grammar %s extends %s\n%sPair = [Word, ",", Word]\nList = Word /? ","\n' % (chi, par, EXT_CHILD[ck])
+    runs = [[e, [ord(ch) for ch in t], 0] for e in ('start', 'Pair', 'List') for t in EXT_TEXTS]
+    res = {'desc': pdesc + '\n' + cdesc}
+    d = tempfile.mkdtemp(prefix='verif-c11x-')
+    try:
+        bp = realrun.build(pdesc, include_source=True)
+        bc = realrun.build(cdesc, include_source=True) if bp[0] == 'ok' else bp
+        if bc[0] != 'ok':
+            res['build'] = list(bc)
+            return {'id': cid, 'desc': res['desc'], 'build': ['ok'], 'obs': res}
+        mp, mc = bp[1], bc[1]
+        res['memory'] = [realrun.call_parse(mc, mc.parse if e == 'start' else getattr(mc, e).parse,
+                                            realrun.to_text(t), p, True)[:3] for e, t, p in runs]
+        for name, m in ((par, mp), (chi, mc)):
+            with open(os.path.join(d, name + '.py'), 'w') as f:
+                f.write(m._source_code)
+        jobs = [{'module': chi, 'runs': runs, 'start': 'start', 'bytes': False, 'allowed': [par]}]
+        with open(os.path.join(d, 'jobs.json'), 'w') as f:
+            json.dump(jobs, f)
+        with open(os.path.join(d, 'driver.py'), 'w') as f:
+            f.write('HARNESS = %r\nDIR = %r\n' % (os.path.dirname(os.path.abspath(__file__)).rsplit('/checks', 1)[0], d) + DRIVER)
+        try:
+            p = subprocess.run([sys.executable, '-I', '-S', os.path.join(d, 'driver.py')], capture_output=True, text=True,
+                               timeout=120)
+            if p.returncode != 0:
+                res['exec'] = {'driver-failed': (p.stderr or '')[-600:]}
+            else:
+                res['saved'] = json.loads(p.stdout).get(chi, {'import': ['missing']})
+        except subprocess.TimeoutExpired:
+            res['exec'] = {'driver-failed': 'timeout'}
+    finally:
+        sys.modules.pop(par, None)
+        sys.modules.pop(chi, None)
+        shutil.rmtree(d, ignore_errors=True)
+    res['runs'] = runs
+    return {'id': cid, 'desc': res['desc'], 'build': ['ok'], 'obs': res}
+
+
+engine.register('c11_extends_worker', c11_extends_worker)
+
+
+def sample(cases, n, rng, max_runs=24, stratum=None):
+    if stratum is not None:
+        # the same number of cases from every stratum (e.g. every ignore set), so that no kind depends on the draw
+        groups = {}
+        for c in sorted(cases, key=lambda c: json.dumps([c['g'], c.get('cfg')], sort_keys=True)):
+            groups.setdefault(stratum(c), []).append(c)
+        out = []
+        for k in sorted(groups):
+            out += sample(groups[k], max(1, n // len(groups)), rng, max_runs)
+        return out
     # TLC prints the cases in an order that depends on its worker threads: sort them first, so that a seed always
     # selects the same cases
     cases = sorted(cases, key=lambda c: json.dumps([c['g'], c.get('cfg')], sort_keys=True))
+    # the families contain each grammar with and without a header; here the header is a configuration, so keep one of each
+    uniq, seen = [], set()
+    for c in cases:
+        k = json.dumps([c['g'], {x: v for x, v in (c.get('cfg') or {}).items() if x != 'name'}], sort_keys=True)
+        if k not in seen:
+            seen.add(k)
+            uniq.append(c)
+    cases = uniq
     pick = cases if len(cases) <= n else rng.sample(cases, n)
     out = []
     for c in pick:
@@ -174,13 +276,16 @@ def run(chk):
     rng = random.Random(chk.seed * 7919 + 11)
     big = chk.tier != 'quick'
     pool = []
-    for mod, n in (('MC_C06', 60 if big else 30), ('MC_C05', 80 if big else 30), ('MC_C10', 14), ('MC_C04', 40 if big else 16),
+    for mod, n in (('MC_C06', 60), ('MC_C05', 80 if big else 30), ('MC_C10', 14), ('MC_C04', 40 if big else 16),
                    ('MC_C17', 80 if big else 30), ('MC_C03', 40 if big else 16)):
         cs = pegcheck.collect(chk, mod, mod + '_quick', timeout_s=1500)
         cs = pegcheck.drop_ill(chk, cs)
         if mod == 'MC_C17':
             cs = [c for c in cs if 'grammar vg_c17' not in json.dumps(c.get('cfg'))]
-        pool += sample(cs, n, rng)
+        if mod == 'MC_C04':
+            pool += sample(cs, 24 if not big else 48, rng, stratum=lambda c: json.dumps(c['g'].get('ign')))
+        else:
+            pool += sample(cs, n, rng)
     ocases = []
     for i in range(12 if not big else 40):
         og = gen.OpGen(rng)
@@ -203,7 +308,7 @@ def run(chk):
         if missing:
             raise MachineryFailure('configurations not produced: %s' % sorted(missing))
         base = None
-        for key in sorted(want_keys):
+        for key in sorted(want_keys) + (['named=like-a-rule'] if 'named=like-a-rule' in res else []):
             v = res[key]
             chk.traces += 1
             if 'build' in v and v['build'][0] != 'ok':
@@ -240,5 +345,37 @@ def run(chk):
         if len(chk.samples) < 2:
             chk.sample({'description': desc, 'configurations': sorted(want_keys)[:3], 'first_run': c['runs'][0],
                         'spec': c['exp'][0][:3]})
+    # grammars that extend another one: in memory vs saved sources of child and parent in a separate interpreter
+    xcases = [{'id': i, 'parent': pk, 'child': ck}
+              for i, (pk, ck) in enumerate((a, b) for a in sorted(EXT_PARENT) for b in sorted(EXT_CHILD))]
+    xrecs = engine.run_real(xcases, fn='c11_extends_worker', batch=1)
+    for xc in xcases:
+        res = xrecs[xc['id']]['obs']
+        if xrecs[xc['id']]['build'][0] != 'ok' or 'exec' in res:
+            raise MachineryFailure('c11 extends worker: %r %r' % (xrecs[xc['id']]['build'], res.get('exec')))
+        desc = res['desc']
+        chk.traces += 1
+        chk.count([desc, 'extends'], True)
+        if 'build' in res:
+            chk.violation('Grammar() failed for a parent/child pair with include_source=True: %s | %s'
+                          % (res['build'][1:], desc.replace('\n', ' ; ')), {'desc': desc, 'build': res['build']})
+            continue
+        sv = res['saved']
+        if 'import' in sv and sv['import'][0] != 'ok':
+            chk.violation('the saved source of a grammar that extends another cannot be executed next to the saved source '
+                          'of its parent: %s | %s' % (sv['import'], desc.replace('\n', ' ; ')), {'desc': desc, 'import': sv['import']})
+            continue
+        if sv.get('foreign'):
+            chk.violation('the saved source imports modules other than the standard library and its parent: %s' % sv['foreign'],
+                          {'desc': desc, 'foreign': sv['foreign']})
+        for rrun, a, b in zip(res['runs'], res['memory'], sv['obs']):
+            chk.count([desc, 'extends', rrun], a[0] == 'ok')
+            sa = a[:3] if a[0] == 'ok' else a[:2]
+            sb = b[:3] if b[0] == 'ok' else b[:2]
+            if sa != sb:
+                chk.violation('in-memory module and saved source of a grammar that extends another disagree | entry %s text %r '
+                              '| memory %s | saved %s | %s' % (rrun[0], pegcheck.text_of(rrun[1]), sa, sb, desc.replace('\n', ' ; ')),
+                              {'desc': desc, 'run': rrun, 'memory': a, 'saved': b})
+    chk.notes['extends_pairs'] = len(xcases)
     chk.notes['grammars'] = len(pool)
     chk.notes['configurations'] = sorted(want_keys)
